@@ -128,7 +128,7 @@ func scenC10(r *Run) {
 			task := r.Spawn(fmt.Sprintf("%sharvest%d", phase, i), func() {
 				out.items, out.cont, out.off = c.Harvest(n, o)
 			})
-			end := r.Drive(func() bool { return task.Done }, hugeHorizon, 400000)
+			end := r.Drive(func() bool { return task.Done }, hugeHorizon, stepCapFor(f))
 			if !task.Done {
 				r.Violate("C10", "M-live", "harvest-did-not-return", fmt.Sprintf("request #%d (n=%d) on layout %s did not return (%v); delivered so far %d items", i, n, l.Describe(), end, len(got)))
 				return false
